@@ -85,6 +85,17 @@ def main():
                 k = t.split('(')[0] or '<none>'
                 hist[k] = hist.get(k, 0) + 1
         chk.coverage['check_language_tag_histogram'] = hist
+        # end to end: the real CLI in a subprocess on real files vs the model (glue: header parsing, option handling, template flag)
+        e2e = C.e2e_cases(rng, (240 if big else 36) * (2 if chk.broken else 1))
+        e2e_impl = C.run_e2e(e2e)
+        e2e_model = [C.render_model_line(o) for o in common.run_driver([C.check_line(c) for c in e2e])]
+        e2e_dis = [i for i, (a, b) in enumerate(zip(e2e_impl, e2e_model)) if a != b]
+        chk.coverage['streams']['e2e-cli'] = {'cases': len(e2e), 'disagreements': len(e2e_dis),
+                                              'outcomes': {'ok': sum(1 for o in e2e_impl if o.startswith('ok')), 'err': sum(1 for o in e2e_impl if not o.startswith('ok'))}}
+        chk.evaluations += len(e2e)
+        for i in e2e_dis[:5]:
+            chk.broken.append({'kind': 'correspondence', 'stream': 'e2e-cli', 'case': e2e[i], 'impl': e2e_impl[i], 'model': e2e_model[i]})
+        dis_cases += [e2e[i] for i in e2e_dis]
     else:
         dis_parse, dis_fix, dis_cli, dis_cases = [], [], [], []
         chk.broken.append({'kind': 'correspondence', 'stream': 'locale-*', 'problem': 'driver could not be rebuilt from the regenerated model'})
